@@ -56,6 +56,16 @@ CHECKS = {
              "(c10_two_noise_sources_refuted) and reported as KNOWN-FINDING D21. Every request of the implementation is rebuilt from the "
              "model's description with numpy from a clone of the generator and compared bit for bit at dyadic rates.",
         design="3/C10", technique="Coq induction over request lists / op histories + generator-indexed correspondence"),
+    "C02": dict(
+        text="Theorems for all block geometries, both bit depths (q = bytes per complex sample), any antenna/pol/channel counts and every "
+             "sub-block plan produced by any num_subblocks >= 1: each write of collect_data_block lands on the cell the GUPPI RAW layout assigns "
+             "to (antenna, channel, spectrum, pol, component), every cell of the block is written, distinct samples never share a cell; 4-bit "
+             "packing fits int8 and is inverted by both the library's and the standard nibble decoder; a stream cut at any request sizes that "
+             "are positive multiples of taps*nb (sub-block, block, file boundaries) channelises to the spectra of the whole stream in order, "
+             "hence independent of the partition (generic in sample type: holds for doubles). Every indexed write of the implementation is "
+             "logged and compared with the layout model; bytes on disk are decoded independently and compared sample by sample with a "
+             "one-shot numpy reference pipeline for several (num_subblocks, blocks_per_file) per configuration.",
+        design="3/C02", technique="Coq proof (Z layout arithmetic by nia, finite nibble table, chunking corollary) + write-log and byte-level correspondence"),
 }
 
 PENDING_REASON = "check not built yet in this session (planned in DESIGN.md section 3); no claim is made for it in this commit"
